@@ -16,7 +16,7 @@ SPEC = {
     'rule': 'mr: DONs of 4..13 oracles (random ids), F = (N-1)/3 (plus F in {0,-1,random}), destination + 1..4 source chains with '
             'f_k in 1..3 and random reader sets; per chain and field (root / on-ramp max / off-ramp next / RMN remote config / fChain) '
             'the number of oracles voting value A is drawn from {0, thr-1, thr, thr+1, all} and a competing value B gets its own such count '
-            '(B differs from A in exactly one root component); Byzantine stream: duplicate entries, foreign or unknown chains, off-ramp / RMN data '
+            '(B differs from A in exactly one component: root address / start / end / hash; RMN config signer key, node index, F, digest, version, address, report version; discovery address first byte / last byte / extra leading or trailing zero byte), the first holder of B being the reader with the lowest or the highest oracle id, observations handed over in ascending oracle id order (libocr) or shuffled; Byzantine stream: duplicate entries, foreign or unknown chains, off-ramp / RMN data '
             'from non-destination oracles, fChain claims <= 0 or inflated up to 2^63-1, malformed RMN configs, nil-vs-empty addresses, '
             'retry query, missing destination config, unknown oracle id. Every observation goes through Processor.ValidateObservation, the accepted '
             'ones through getConsensusObservation. disc: same DON shapes; five address maps with counts at {0,1,thr-1,thr,thr+1,all}, zero addresses, '
@@ -24,8 +24,10 @@ SPEC = {
             'non-trivial = consensus computed on >= 3 accepted observations (mr) / Sync called once with five maps (disc); distinct by full input',
     'trusted': ['home-chain role lookups (GetSupportedChainsForPeer / GetChainConfig) answered by the scripted fake vHomeChain: '
                 'supported(o) = chains whose SupportedNodes contain o',
-                'minObservation item identity = sha3 of the "%v" rendering; the harness interns byte strings by the same rendering '
-                '(nil and empty address are one item); sha3 collisions ignored',
+                'value identity in the case files = hand-written canonical encoding of every exported field (raw bytes in hex, numbers), '
+                'independent of any String()/%v of the code under test; nil and empty byte strings are one value; '
+                'that the implementation\'s vote identity (sha3 of the %v rendering) separates exactly these values is CHECKED, not assumed; '
+                'sha3 collisions ignored',
                 'fChain values and F fit Go int (64 bit)'],
     'assumptions': ['libocr delivers at most one observation per oracle per round and calls ValidateObservation before Outcome',
                     'Go maps inside an observation (FChain, Addresses[contract]) have unique keys by construction'],
